@@ -221,11 +221,9 @@ theorem C11_sqrt_correct_of (c : Ctx) (x : Dec) (h : Dom c x) (hic : IterClose c
   have hfail : (iter c x).1.failed = false := hic.1
   rw [sqrtOp_eq c x (rootSpecials_none c x h.hx h.hn h.h0), hfail]
   simp only [Bool.false_eq_true, if_false]
-  obtain ⟨G, hns, hval⟩ := tail_core c x _ hh _ h.hc h.hx h.hn DH
-  have := tail_final c x h.hc h.ht h.hx h.hn h.h0 _ _ G hns hval
-  unfold tail
-  rw [ht2]
-  exact this
+  obtain ⟨G, hns, hval⟩ := tailMid_core c x _ hh _ h.hc h.hx h.hn DH
+  rw [sqrt_tail_eq, ht2]
+  exact tailFin_final c x h.hc h.ht h.hx h.hn h.h0 _ _ G hns hval
 
 /-- **C11, Sqrt, under the exact side condition**: well-formed context without traps, positive finite
 well-formed operand, and the iterate shifted by half the operand's exponent keeps its exponent at or above the
